@@ -264,8 +264,57 @@ func propC04(g *G, w *CaseW, rep *Report, thorough bool) {
 			rep.sample(json.RawMessage(caseJSON(c)))
 		}
 	}
+	// reuse: abandoned / failed / complete parses, Reset (or Init), then another input on the same object
+	for i := 0; i < scale(thorough, 1200, 15000); i++ {
+		c := genHistory(g, allKinds[i%len(allKinds)])
+		out, res := runCase(c)
+		w.emitCase(c, out)
+		rep.Cases++
+		rep.count(fmt.Sprintf("history-ops:%d", len(c.Ops)))
+		oracleSafe(rep, c, res)
+	}
 	safeEntries(g, w, rep, thorough)
 	isolation(g, rep, thorough)
+}
+
+// a history of (complete | mutated | abandoned) parses, each followed by a Reset, then a probe
+func genHistory(g *G, kind int) *Case {
+	first := Input{Kind: kind}
+	g.paramsFor(&first)
+	c := &Case{Kind: kind, A: first.A, B: first.B, C: first.C}
+	for j := 1 + g.n(3); j >= 0; j-- {
+		in := first
+		if kind == kMsg {
+			in.Flags = uint(g.n(8))
+		} else if kind == kTokParam {
+			in.Flags = tpFlagSets[g.n(len(tpFlagSets))]
+		}
+		pre := ""
+		if g.p(30) {
+			pre = g.hostile(1 + g.n(40)) // the text sits at a different offset each time
+		}
+		switch g.n(3) {
+		case 0:
+			in.Buf = g.textFor(&in)
+		case 1:
+			in.Buf = g.mutate(g.textFor(&in))
+		default:
+			t := g.textFor(&in)
+			if len(t) > 1 {
+				t = t[:1+g.n(len(t)-1)]
+			}
+			in.Buf = t
+		}
+		var cuts []int
+		if g.p(30) {
+			cuts = g.cutsFor(len(pre), pre+in.Buf)
+		}
+		c.Ops = append(c.Ops, Op{Flags: in.Flags, Buf: []byte(pre + in.Buf), Offs: len(pre), Cuts: cuts})
+		if j > 0 {
+			c.Ops = append(c.Ops, Op{Reset: true})
+		}
+	}
+	return c
 }
 
 // GetMsgSig, Method, MaxExpires, GetContact, GetHdr on every state a schedule passes through
